@@ -307,6 +307,43 @@ pub fn run(tier: Tier) -> i32 {
         });
         st = st.merge(ss);
     }
+    // long flat inputs: prefix + unit^n + suffix (length ladders through every quoted form,
+    // multi-byte units at every byte alignment, long operator runs)
+    {
+        let units = ["a", "é", "😀", "\\", "'", "\"", "`", "\\'", " ", "1", "[", ".", "a.", "[0]", "a,", "||a", "\n", "\u{1}", "٣", "-1", "&", "!", "*", "\\u00e9", "`1`"];
+        let prefixes = ["", "'", "'a", "'ab", "'abc", "\"", "\"a", "\"\\", "`", "`\"", "`\"a", "a.", "[", "a[", "f(", "{a:"];
+        let suffixes = ["", "'", "\"", "`", "\"`", "]", ")", "}"];
+        let maxn = tier.pick(140, 300);
+        let jobs: Vec<(usize, usize)> = (0..units.len()).flat_map(|u| (0..prefixes.len()).map(move |p| (u, p))).collect();
+        let sl = par_sweep(jobs, |&(u, p), st| {
+            for n in 0..=maxn {
+                let body = units[u].repeat(n);
+                for s in suffixes {
+                    st.states += 1;
+                    total(&format!("{}{}{}", prefixes[p], body, s), "long-flat-inputs", st);
+                }
+            }
+        });
+        st = st.merge(sl);
+    }
+    // builtins on documents of extreme numeric magnitude
+    {
+        let docs = [json!([1e308, 1e308]), json!([-1e308, -1e308, -1e308]), json!([u64::MAX, u64::MAX]), json!([i64::MIN, -1]), json!([5e-324, 5e-324]), json!([1e308, -1e308, 1e308]), json!(1e308), json!(u64::MAX), json!(i64::MIN), json!({"a": 1e308, "b": -1e308}), json!([[1e308], [1e308]]), json!(["1e999", "-1e999", "1e308"])];
+        let calls = ["sum(@)", "avg(@)", "max(@)", "min(@)", "sort(@)", "abs(@)", "ceil(@)", "floor(@)", "to_string(@)", "to_number(@)", "sum(*)", "avg(*)", "sum([])", "sum(@[])", "map(&abs(@), @)", "map(&to_number(@), @)", "sum(map(&to_number(@), @))", "sort_by(@, &@)", "max_by(@, &@)", "abs(sum(@))", "ceil(avg(@))", "length(to_string(@))", "@[0] < @[1]", "sum(@) == avg(@)", "join(',', map(&to_string(@), @))"];
+        for d in &docs {
+            let rc = value_to_var(d);
+            for c in calls {
+                st.states += 1;
+                st.evaluations += 1;
+                st.validated += 1;
+                let r = watched(c, || guarded(|| jmespath::compile(c).map(|e| e.search(rc.clone()).is_ok())));
+                match r {
+                    Ok(_) => st.outcome("extreme-magnitude call returned"),
+                    Err(m) => st.violate(Violation { key: panic_key(&m), check: "extreme-magnitude".into(), case: json!({"kind": "search", "expression": c, "document": d}), expected: "Ok or Err".into(), actual: format!("panic: {}", m) }),
+                }
+            }
+        }
+    }
     // (c) nesting families, one subprocess each
     let depths: Vec<usize> = tier.pick(vec![8, 64, 512, 4096, 32768], vec![8, 64, 512, 4096, 32768, 262144]);
     let known = crate::engine::load_known_raw();
@@ -371,6 +408,15 @@ pub fn replay(case: &Value) -> Option<(String, bool)> {
             Some(match st.violations.first() {
                 Some(v) => (format!("{}: {}", v.key, v.actual), true),
                 None => ("returns".into(), false),
+            })
+        }
+        "search" => {
+            let e = case["expression"].as_str()?;
+            let rc = value_to_var(&case["document"]);
+            let r = guarded(|| jmespath::compile(e).map(|x| x.search(rc.clone()).is_ok()));
+            Some(match r {
+                Ok(_) => ("returns".into(), false),
+                Err(m) => (format!("panic: {}", m), true),
             })
         }
         "family" => {
